@@ -94,3 +94,38 @@ Theorem C06_emit_initial_totals_are_code :
      e_steps := nil |}.
 Proof. exact emit_init_is_code. Qed.
 Print Assumptions C06_emit_initial_totals_are_code.
+
+(* in-vehicle and overall DISTANCE totals (SpecDist.vehicle_dists_ok_b, -1 = unknown): one ridden path without
+   segment distances makes both totals -1, otherwise they are the sums over the steps.  Needs the genuine sums to stay
+   away from the -1 marker: segment distances >= 0 (seg_dists_nonneg_b; wf_data_b only gives -1 <= x, see
+   DistTotals.vehicle_dists_wf_data_not_enough) and, at the level of emit, walking distances >= 0 (derived from the
+   well-formed tables for every journey calc_single builds) *)
+Theorem C06_vehicle_distances_emit : forall (d : data) (p : params) (bestdep : Z) (js : list jstep),
+  shape_ok d js = true -> seg_dists_nonneg_b d = true -> walk_dists_nonneg_b js = true ->
+  vehicle_dists_ok_b d (emit d p bestdep js) = true.
+Proof. exact C06_vehicle_dists. Qed.
+Print Assumptions C06_vehicle_distances_emit.
+
+Theorem C06_single_route_vehicle_distances : forall d s p acc egr fresh r used,
+  wf_data_b d = true -> wf_tables_b d p acc egr = true -> wf_params_b p = true ->
+  seg_dists_nonneg_b d = true ->
+  calc_single d (conn_set d s) p acc egr fresh = Ok (r, used) -> vehicle_dists_ok_b d r = true.
+Proof. exact calc_single_vehicle_dists. Qed.
+Print Assumptions C06_single_route_vehicle_distances.
+
+Theorem C06_alternatives_vehicle_distances : forall d s p acc egr rs total,
+  wf_data_b d = true -> wf_tables_b d p acc egr = true -> wf_params_b p = true ->
+  seg_dists_nonneg_b d = true ->
+  alternatives d (conn_set d s) p acc egr = Ok (rs, total) ->
+  forall r, In r rs -> vehicle_dists_ok_b d r = true.
+Proof. exact alternatives_vehicle_dists. Qed.
+Print Assumptions C06_alternatives_vehicle_distances.
+
+Example C06_vehicle_distances_example :
+  seg_dists_nonneg_b ex_data = true /\
+  match answer_route ex_data scen_all (ex_params true 35000) ex_acc ex_egr with
+  | Ok (r, _) => rides_transferable ex_data r = false /\ vehicle_dists_ok_b ex_data r = true
+  | _ => False
+  end.
+Proof. vm_compute. auto. Qed.
+Print Assumptions C06_vehicle_distances_example.
